@@ -523,6 +523,22 @@ func c17SpotOrder(w *World, std *Std, owner *Acct) (uint64, string) {
 	return 0, "spot order not pending after creation"
 }
 
+// a degenerate object: a pending spot order that escrows nothing (order amount zero passes validation)
+func c17SpotOrderZero(w *World, std *Std, owner *Acct) (uint64, string) {
+	msg := &tstypes.MsgCreateSpotOrder{OrderType: tstypes.SpotOrderType_LIMITBUY,
+		OrderPrice:  tstypes.OrderPrice{BaseDenom: "uatom", QuoteDenom: "uusdc", Rate: std.Prices["ATOM"].Mul(D("0.5"))},
+		OrderAmount: coin("uusdc", math.ZeroInt()), OwnerAddress: owner.Addr.String(), OrderTargetDenom: "uatom"}
+	if why := c17Deliver(w, owner, msg); why != "" {
+		return 0, why
+	}
+	for _, o := range w.App.TradeshieldKeeper.GetAllPendingSpotOrder(w.Ctx()) {
+		if o.OwnerAddress == owner.Addr.String() {
+			return o.OrderId, ""
+		}
+	}
+	return 0, "zero-amount spot order not pending after creation"
+}
+
 func c17PerpOrder(w *World, std *Std, owner *Acct) (uint64, string) {
 	price := std.Prices["ATOM"]
 	msg := &tstypes.MsgCreatePerpetualOpenOrder{OwnerAddress: owner.Addr.String(),
@@ -579,6 +595,19 @@ var c17OwnedTable = []c17Owned{
 			return &tstypes.MsgCancelSpotOrder{OwnerAddress: who, OrderId: id}
 		}},
 	{module: "tradeshield", msg: "MsgCancelSpotOrders", field: "Creator", create: c17SpotOrder,
+		build: func(w *World, std *Std, who string, id uint64) sdk.Msg {
+			return &tstypes.MsgCancelSpotOrders{Creator: who, SpotOrderIds: []uint64{id}}
+		}},
+	// the same three messages about an order whose escrow account is empty
+	{module: "tradeshield", msg: "MsgUpdateSpotOrder", field: "OwnerAddress", create: c17SpotOrderZero,
+		build: func(w *World, std *Std, who string, id uint64) sdk.Msg {
+			return &tstypes.MsgUpdateSpotOrder{OwnerAddress: who, OrderId: id, OrderPrice: tstypes.OrderPrice{BaseDenom: "uatom", QuoteDenom: "uusdc", Rate: std.Prices["ATOM"].Mul(D("0.4"))}}
+		}},
+	{module: "tradeshield", msg: "MsgCancelSpotOrder", field: "OwnerAddress", create: c17SpotOrderZero,
+		build: func(w *World, std *Std, who string, id uint64) sdk.Msg {
+			return &tstypes.MsgCancelSpotOrder{OwnerAddress: who, OrderId: id}
+		}},
+	{module: "tradeshield", msg: "MsgCancelSpotOrders", field: "Creator", create: c17SpotOrderZero,
 		build: func(w *World, std *Std, who string, id uint64) sdk.Msg {
 			return &tstypes.MsgCancelSpotOrders{Creator: who, SpotOrderIds: []uint64{id}}
 		}},
